@@ -302,7 +302,8 @@ class Style:
             return ' '
         s = self.rnd.choice((' ', ' ', ' ', '  ', '\t', '\n', ' \n ')) if self.space else ' '
         if self.comments and self.rnd.boolean(0.1):
-            s += self.rnd.choice(('/* c */', '/**/', '/* a * b / c */', '/* ; */ ', '; x y\n', ';\n')) + ' '
+            s += self.rnd.choice(('/* c */', '/**/', '/* a * b / c */', '/* ; */ ', '; x y\n', ';\n', '/** banner **/', '/***/',
+                                  '/* x ****/', '/* * */', '/*/ */', '/* SELECT */', "/* ' */", '/* \n */')) + ' '
         return s
 
     def osp(self):
